@@ -558,7 +558,11 @@ class HistRun(object):
     def op_opt_enable(self, tg, a):
         m, obj, ref = tg.m, tg.pobj, tg.pref
         if ref[m.name] is not None:
-            return self.op_read(tg, a)
+            if a[0] % 3 == 0:
+                return self.op_read(tg, a)
+            # '= True' on a present optional: the plain model of "enable" is "holds the default value"
+            return ("%s = True (present)" % tg.desc, lambda: setattr(obj, m.name, True),
+                    lambda: ref.__setitem__(m.name, mm.default_value(m.type)), "re-enable/optional")
         return ("%s = True" % tg.desc, lambda: setattr(obj, m.name, True),
                 lambda: ref.__setitem__(m.name, mm.default_value(m.type)), "enable/optional")
 
